@@ -159,6 +159,12 @@ var strAlphabet = []string{
 // StrValue draws a string value (valid UTF-8) over an alphabet rich in the
 // characters that are layout outside of strings.
 func StrValue(t *rapid.T, maxParts int) string {
+	if Chance(t, 4, "lookalike") {
+		// the exact spelling of a literal, keyword or name that the same
+		// program is likely to contain as a token of another kind
+		return Pick(t, "lookalikeval", []string{"0.0", "1.0", "2.0", "0.5", "0.25", "1.5", "2.5", "10.0", "1e0", "0", "1", "7",
+			"0x10", "017", "true", "false", "nil", "a", "b", "c", "d", "e", "s", "t", "TYPE", "NAME", "struct", "first"})
+	}
 	n := Weighted(t, "strlen", 15, 25, 25, 20, 15)
 	if n > maxParts {
 		n = maxParts
